@@ -97,6 +97,11 @@ thread_local! {
     static LAST_PANIC: std::cell::RefCell<Option<(String, String)>> = const { std::cell::RefCell::new(None) };
 }
 
+/// Forget a panic that the scenario itself raised and caught on purpose (C15: a handle dropped by an unwind).
+pub fn clear_last_panic() {
+    LAST_PANIC.with(|p| *p.borrow_mut() = None);
+}
+
 pub fn install_panic_hook() {
     std::panic::set_hook(Box::new(|info| {
         let loc = info
